@@ -34,6 +34,8 @@ TYPEDEFS = {
     "PERM": dict(res=[("R4", ["c", "x", "y", "z"]), ("R4", ["z", "x", "c", "y"]), ("R4", ["y", "z", "x", "c"])],
                  edges=[(0, 1), (1, 2)], intra={"c": ["x"], "x": ["y"], "y": ["z"]}, anchor="c"),
     "SOLO": dict(res=[("R4", ["c", "x", "y", "z"])], edges=[]),
+    # G3 has no user template: polyply generates one (bonds only, so the bending angle is whatever the optimisation finds)
+    "GEN": dict(res=[("G3", ["u", "v", "w"]), ("G3", ["u", "v", "w"]), ("R1", ["a"])], edges=[(0, 1), (1, 2)]),
 }
 TEMPLATES = """[ template ]
 resname R4
@@ -69,7 +71,7 @@ r P 0.10 0.25 0.00
 p q
 q r
 """.splitlines()
-VOLS = {"R1": 0.5, "R2": 0.5, "R3": 0.5, "R4": 0.5, "R5": 0.5}
+VOLS = {"R1": 0.5, "R2": 0.5, "R3": 0.5, "R4": 0.5, "R5": 0.5, "G3": 0.5}
 
 
 def systems(tier):
@@ -85,6 +87,12 @@ def systems(tier):
                     grid=[[1.0, 1.0, 1.0], [2.5, 2.5, 2.5]], volumes=VOLS, bld_pre=TEMPLATES, kwargs=dict(bfudge=0.4),
                     input=dict(kind="c", atoms=[(1, "R1", "a"), (2, "R3", "p"), (2, "R3", "q"), (2, "R3", "r")],
                                coords=[(1.0, 1.0, 1.0), (1.4, 1.05, 1.0), (1.6, 1.0, 1.1), (1.5, 1.2, 0.9)], box=[4.0, 4.0, 4.0])))
+    # generated (not user supplied) template of a flexible residue in several molecules and molecule types
+    out.append(dict(types=["GEN"], typedefs={"GEN": TYPEDEFS["GEN"]}, molecules=[("GEN", 3)], box=[4.0, 4.0, 4.0],
+                    grid=[[1.0, 1.0, 1.0], [2.5, 2.5, 2.5], [3.0, 1.0, 2.0], [1.0, 3.0, 3.0]], volumes=VOLS, bld_pre=TEMPLATES, kwargs=dict(bfudge=0.4), small_angles=True))
+    out.append(dict(types=["GEN", "LIN"], typedefs={"GEN": TYPEDEFS["GEN"], "LIN": TYPEDEFS["LIN"]}, molecules=[("GEN", 1), ("LIN", 1), ("GEN", 1)],
+                    box=[4.0, 4.0, 4.0], grid=[[1.0, 1.0, 1.0], [2.5, 2.5, 2.5], [3.0, 1.0, 2.0], [1.0, 3.0, 3.0]], volumes=VOLS, bld_pre=TEMPLATES,
+                    kwargs=dict(bfudge=1.0), small_angles=True))
     return out
 
 
@@ -168,7 +176,7 @@ def judge(sysd, res, choices, angle_options):
 
 def run_case(case):
     sysd = case["sys"]
-    opts = ANGLES_Q if case["tier"] == "quick" else ANGLES_T
+    opts = ANGLES_Q if case["tier"] == "quick" and not sysd.get("small_angles") else ANGLES_T
     if "choices" in case:
         res = run_exec(sysd, Chooser(case["choices"]), case.get("angle_options") or opts)
         v, _ = judge(sysd, res, case["choices"], opts)
